@@ -7,6 +7,7 @@ import Circomspect.Model.Runner
 import Circomspect.Model.Dominators
 import Circomspect.Model.CfgLift
 import Circomspect.Spec.Cfg
+import Circomspect.Spec.Trace
 import Driver.Sexp
 
 namespace Driver
@@ -222,6 +223,46 @@ def cfgSkel (c : Sexp) : List CfgLift.Block :=
       | _ => default)
   | _ => []
 
+/-- source ranges of the `return` statements of an AST dump -/
+partial def retLocs (s : Sexp) : List CfgLift.Loc :=
+  match s with
+  | .list (.atom "ret" :: m :: _) => [locOf m]
+  | .list (.atom "ite" :: _ :: _ :: t :: e :: _) => retLocs t ++ retLocs e
+  | .list (.atom "while" :: _ :: _ :: b :: _) => retLocs b
+  | .list (.atom "blk" :: _ :: .list cs :: _) => cs.flatMap retLocs
+  | .list (.atom "init" :: _ :: _ :: .list cs :: _) => cs.flatMap retLocs
+  | _ => []
+
+def isPhiStmt (st : Sexp) : Bool :=
+  match st with
+  | .list (.atom "st" :: .list (.atom "sub" :: _ :: _ :: _ :: .list (.atom "phi" :: _) :: _) :: _) => true
+  | _ => false
+
+open Sexp in
+def cfgSkelNoPhi (c : Sexp) : List CfgLift.Block :=
+  match c with
+  | .list (.atom "cfg" :: _ :: _ :: _ :: _ :: .list bs :: _) =>
+    bs.map (fun b => match b with
+      | .list [.atom "b", _, d, .list ps, .list ss, .list sts] =>
+        { depth := (nat? d).getD 0, stmts := (sts.filter (fun st => !isPhiStmt st)).map irSkel, preds := ps.filterMap nat?, succs := ss.filterMap nat? }
+      | _ => default)
+  | _ => []
+
+/-- `traces (triple <ast def> <cfg> k)`: C13 for all decision sequences of length `k` -/
+def tracesCmd (rest : String) : String :=
+  match Sexp.parse rest with
+  | some (.list [.atom "triple", a, c, k]) =>
+    match defBody a, Sexp.nat? k with
+    | some body, some k =>
+      let bs := cfgSkelNoPhi c
+      match Trace.firstMismatch (retLocs body) (astSkel body) bs k with
+      | none => s!"ok {(Trace.allDecisions k).length}"
+      | some ds =>
+        let show_ (l : List CfgLift.Loc) := ",".intercalate (l.map (fun x => s!"{x.1}-{x.2}"))
+        s!"mismatch decisions={ds} ast={show_ (Trace.astTrace (retLocs body) (astSkel body) ds)} cfg={show_ (Trace.cfgTrace bs ds)}"
+    | _, _ => "bad-op"
+  | _ => "bad-op"
+
 def showIStmt : CfgLift.IStmt → String
   | .simple l => s!"s{l.1}-{l.2}"
   | .branch l t f => s!"i{l.1}-{l.2}:{t}:{match f with | some f => toString f | none => "-"}"
@@ -254,6 +295,7 @@ def wfcheckCmd (rest : String) : String :=
 def handle (line : String) : String :=
   if line.startsWith "cfglift " then cfgliftCmd (line.drop 8).toString else
   if line.startsWith "wfcheck " then wfcheckCmd (line.drop 8).toString else
+  if line.startsWith "traces " then tracesCmd (line.drop 7).toString else
   match line.splitOn " " with
   | "field" :: args => fieldCmd args
   | "fieldspec" :: args => fieldSpecCmd args
